@@ -170,6 +170,55 @@ def check_arg_verdicts(case, ctx):
 
 
 # ------------------------------------------------------------------------------------------------
+def check_create_rating(case, ctx):
+    """create_rating / rating() on arbitrary arguments: same outcome (values or exception class) in all five classes."""
+    outcomes = {}
+    cl = classes()
+    for kind in KINDS:
+        model = cl[kind]()
+        others = [cl[k]() for k in KINDS if k != kind]
+        arg = _build(case["arg"], model, others) if isinstance(case["arg"], list) and case["arg"] and case["arg"][0] in ("own", "foreign", "scalar", "list", "tuple") else case["arg"]
+        if case["arg"] and isinstance(case["arg"], list) and case["arg"][0] == "numbers":
+            arg = list(case["arg"][1])
+        elif case["arg"] and isinstance(case["arg"], list) and case["arg"][0] == "numbers-tuple":
+            arg = tuple(case["arg"][1])
+        row = []
+        for target in (model, cl[kind]):
+            try:
+                r = target.create_rating(arg, case["name"]) if case["give_name"] else target.create_rating(arg)
+                row.append(("ok", repr(r.mu), repr(r.sigma), r.name, type(r).__name__.replace(NAMES[kind], "<Model>")))
+            except Exception as e:  # noqa: BLE001
+                row.append(type(e).__name__)
+        try:
+            r = model.rating(*case["rating_args"])
+            row.append(("ok", repr(r.mu), repr(r.sigma), r.name))
+        except Exception as e:  # noqa: BLE001
+            row.append(type(e).__name__)
+        outcomes[kind] = row
+        ctx.called(3)
+    if len(set(map(repr, outcomes.values()))) != 1:
+        raise Violation("create-rating-outcome-differs", f"create_rating({case['arg']}, name={case['name']!r}) / rating{tuple(case['rating_args'])}: {outcomes}"[:900])
+    ctx.label("outcome:" + (outcomes["PL"][0] if isinstance(outcomes["PL"][0], str) else "ok"))
+    ctx.nontrivial_if(isinstance(outcomes["PL"][0], str))
+
+
+@st.composite
+def create_cases(draw):
+    num = st.one_of(st.integers(-5, 30), st.floats(-5.0, 30.0), st.booleans(), st.sampled_from([0, 0.0, -0.0]))
+    bad = st.sampled_from([None, "x", [1], (1,), {"a": 1}, 1j])
+    arg = draw(st.one_of(
+        st.tuples(st.just("numbers"), st.lists(num, min_size=2, max_size=2)).map(list),
+        st.tuples(st.just("numbers"), st.lists(num, min_size=0, max_size=4)).map(list),
+        st.tuples(st.just("numbers-tuple"), st.lists(num, min_size=2, max_size=2)).map(list),
+        st.tuples(st.just("numbers"), st.tuples(num, bad).map(list)).map(list),
+        st.tuples(st.just("numbers"), st.tuples(bad, num).map(list)).map(list),
+        st.just(["own"]), st.tuples(st.just("foreign"), st.integers(0, 3)).map(list),
+        st.tuples(st.just("scalar"), st.sampled_from(["none", "int", "float", "str", "dict", "empty-list", "object"])).map(list)))
+    return {"arg": arg, "name": draw(st.one_of(st.none(), st.text(max_size=4))), "give_name": draw(st.booleans()),
+            "rating_args": draw(st.lists(st.one_of(st.none(), num), min_size=0, max_size=2)) + ([draw(st.one_of(st.none(), st.text(max_size=3)))] if draw(st.booleans()) else [])}
+
+
+# ------------------------------------------------------------------------------------------------
 def surface_custom(ctx, seed, tier, shard, nshards, n):
     """Deterministic, exhaustive: public surface of the five classes (signatures, attribute names), MODELS registry."""
     import openskill.models as om
@@ -334,6 +383,9 @@ PROPERTY = Property(
                rule="arbitrary, possibly MULTIPLY malformed argument structures (0-4 teams of 0-3 own / foreign / non-rating players, wrong containers at each "
                     "level, ranks / scores valid, garbage, wrong length, both) through all five classes: same verdict (accepted / exception class); "
                     "non-trivial = the call is rejected"),
+        Clause(name="create-rating-outcomes", strategy=create_cases(), check=check_create_rating, quick=4000, thorough=60000,
+               rule="create_rating (instance and class) and rating() on valid and malformed arguments (wrong length, tuple, non-numbers, own / foreign rating "
+                    "objects, scalars) through all five classes: same values or same exception class; non-trivial = the argument is rejected"),
         Clause(name="public-surface", kind="custom", custom=surface_custom, quick=1, thorough=1, shards_quick=1, shards_thorough=1,
                rule="exhaustive: inspect.signature of every public and special method of the five model and five rating classes after normalising the class's "
                     "own names; public attribute names; constructor defaults; repr/str; MODELS registry"),
